@@ -177,6 +177,10 @@ func vfTurnExec(x *vfkit.X, c vfTurnCase) *vfTurnResult {
 			}
 			res.Events = append(res.Events, vfTurnEvent{Kind: "exit", Actor: a, ID: m.ID, Producer: m.Producer, Seq: m.Seq, Thread: vfsched.CurrentID(), At: clock.Tick()})
 			inHandler[a]--
+			// a handler invocation is an operation boundary of the worker thread: "run to the
+			// next boundary" then stops between two messages of a turn, which puts the end of
+			// the turn (finishOrReclaim) within reach of one budgeted pre-emption
+			vfsched.OpEnd()
 		})
 		pids[a] = pid
 	}
@@ -229,6 +233,6 @@ func vfTurnExec(x *vfkit.X, c vfTurnCase) *vfTurnResult {
 		res.Closed = true
 		rq.close()
 	})
-	res.Outcome = s.Run(vfe3.Picker(x))
+	res.Outcome = s.Run(vfe3.PickerWith(x, vfe3.Opts{PreemptPct: 45, MaxYields: 40, AvoidRepick: true}))
 	return res
 }
